@@ -28,6 +28,7 @@ var harnesses = map[string]func(*vsched.H){
 	"VerifyConcurrent":     harness.VerifyConcurrent,
 	"MergeTwoSessions":     harness.MergeTwoSessions,
 	"NIP11Concurrent":      harness.NIP11Concurrent,
+	"QuotaOverFilters":     harness.QuotaOverFilters,
 	"CacheHandlerSessions": harness.CacheHandlerSessions,
 }
 
